@@ -42,6 +42,35 @@ def doAwait (kind nAw polls : String) (sched : String) : String :=
     showAwait k nAw s
   | _, _, _, _ => "bad-op"
 
+-- ---------------------------------------------------------------- dnotify / dwrite
+
+def doDnotify (k sched : String) : String :=
+  match parseNat? k, parseSched sched with
+  | some k, some sc =>
+    if k == 0 || k > 3 then "bad-op" else
+    let s := Notify.run (Notify.init true k) (sc ++ tail (k + 1))
+    let allDone := (List.range (k + 1)).all fun t => (s.cs t).pc == .done
+    let verdict := if !allDone then "fail hang" else if !s.reloaded then "fail notifying-stuck" else "ok"
+    if !allDone then s!"calls=1 fin=- ## {verdict}"
+    else s!"calls={if s.reloaded then 2 else 1} fin={if s.reloaded then 5 else 7} ## {verdict}"
+  | _, _ => "bad-op"
+
+def doDwrite (kind polls sched : String) : String :=
+  let k := match kind with | "ready" => some 0 | "value" => some 1 | "ref" => some 2 | _ => none
+  match k, parseNat? polls, parseSched sched with
+  | some k, some polls, some sc =>
+    if polls == 0 || polls > 4 then "bad-op" else
+    let s := AwaitW.run (AwaitW.init k polls) (sc ++ tail 2)
+    let w := if s.wpc == .done then "done" else "wait"
+    let tr := String.ofList (List.replicate s.pendings 'P') ++
+      (if s.apc == .ready then (if k == 0 then "R" else s!"R{s.got}") else "")
+    let st := match s.apc with
+      | .ready => "ready" | .gaveUp => "gaveup" | .parked => if s.woken then "woken" else "parked" | .start => "mid"
+    let stuck := s.wpc != .done || s.apc == .start
+    let verdict := if stuck then "fail hang" else if AwaitW.lost s then "fail lost-wakeup-writer" else "ok"
+    s!"w={w} a1={if tr.isEmpty then "-" else tr}/{st} ## {verdict}"
+  | _, _, _ => "bad-op"
+
 -- ---------------------------------------------------------------- chan
 
 def doChan (polls ms sched : String) : String :=
@@ -113,6 +142,106 @@ def doMemo (ini progs sched : String) : String :=
     s!"{String.join parts}{finS} ## {verdict}"
   | _, _, _ => "bad-op"
 
+-- ---------------------------------------------------------------- graph
+
+def parseSrc : List Char → Nat → Option (Graph.Src × List Char)
+  | 's' :: rest, _ => some (.sig, rest)
+  | 'm' :: d :: rest, n =>
+    if d.isDigit && d.toNat - 48 < n then some (.memo (d.toNat - 48), rest) else none
+  | _, _ => none
+
+def takeDigits : List Char → List Char × List Char
+  | c :: rest => if c.isDigit then let (a, b) := takeDigits rest; (c :: a, b) else ([], c :: rest)
+  | [] => ([], [])
+
+def parseDef (tok : String) (n : Nat) : Option Graph.Def :=
+  match tok.toList with
+  | 'p' :: rest =>
+    match parseSrc rest n with
+    | some (a, rest) =>
+      match parseSrc rest n with
+      | some (b, []) => some { f := .plus, reads := [a, b] }
+      | _ => none
+    | none => none
+  | k :: rest =>
+    if k != 'x' && k != 'a' && k != 'd' then none else
+    let (ds, rest) := takeDigits rest
+    match parseNat? (String.ofList ds) with
+    | none => none
+    | some c =>
+      if c ≥ 1000 || (k == 'd' && c == 0) then none else
+      match parseSrc rest n with
+      | some (a, []) => some { f := if k == 'x' then .mul c else if k == 'a' then .add c else .div c, reads := [a] }
+      | _ => none
+  | [] => none
+
+def parseGraph (spec : String) : Option (List Graph.Def) :=
+  let rec go : List String → List Graph.Def → Option (List Graph.Def)
+    | [], acc => some acc
+    | tok :: rest, acc =>
+      match parseDef tok acc.length with
+      | some d => go rest (acc ++ [d])
+      | none => none
+  match go (spec.splitOn ",") [] with
+  | some ds => if ds.isEmpty || ds.length > 5 then none else some ds
+  | none => none
+
+def parseGOp (n : Nat) (o : String) : Option Graph.Op :=
+  match o.toList with
+  | 'g' :: v => (parseNat? (String.ofList v)).bind fun v => if v < n then some (.get v) else none
+  | 's' :: v => (parseNat? (String.ofList v)).bind fun v => if v < 1000 then some (.set v) else none
+  | _ => none
+
+def parseGProg (n : Nat) (s : String) : Option (List Graph.Op) :=
+  if s == "-" then some [] else (s.splitOn ",").mapM (parseGOp n)
+
+def showGRes : Graph.Res → String
+  | .val n => toString n
+  | .unit => "."
+  | .panic => "panic"
+
+def doGraph (spec ini gates progs sched : String) : String :=
+  let clean? := match ini with | "c" => some true | "d" => some false | _ => none
+  match parseGraph spec, clean? with
+  | some defs, some clean =>
+    if gates.isEmpty || !gates.toList.all (fun c => c == 'm' || c == 'l' || c == '-') then "bad-op" else
+    match (progs.splitOn "/").mapM (parseGProg defs.length), parseSched sched with
+    | some progs, some sc =>
+      if progs.isEmpty || progs.length > 3 || progs.any (·.length > 4) then "bad-op" else
+      let n := progs.length
+      let gm := gates.toList.contains 'm'
+      let gl := gates.toList.contains 'l'
+      let s0 := if clean then Graph.initClean defs gm gl progs else Graph.init defs gm gl progs
+      let s := Graph.run s0 (sc ++ tail n)
+      let hist : List (List Nat) := Graph.scratch defs 1 ::
+        progs.flatMap fun p => p.filterMap fun o => match o with | .set v => some (Graph.scratch defs v) | _ => none
+      let parts := (List.range n).map fun i =>
+        let th := s.ts i
+        let rs := th.results.map showGRes ++ List.replicate (th.prog.length - th.results.length) "?"
+        s!"p{i}={if rs.isEmpty then "-" else ",".intercalate rs} "
+      let dead := !Graph.allFinished s n
+      let resPanic := (List.range n).any fun i => (s.ts i).results.any (· == .panic)
+      let bad := (List.range n).any fun i =>
+        let th := s.ts i
+        (th.results.zip th.prog).any fun (r, o) =>
+          match r, o with
+          | .val v, .get j => !hist.any (fun h => h.getD j 0 == v)
+          | _, _ => false
+      if dead then s!"{String.join parts}fin=- ## fail memo-deadlock" else
+      let sf := Graph.readAll s
+      let fin := (sf.ts n).results
+      let want := Graph.scratch defs sf.sig
+      let finPanic := fin.any (· == .panic)
+      let stale := (fin.zip want).any fun (r, w) => match r with | .val v => v != w | _ => false
+      let verdict :=
+        if resPanic || finPanic then "fail memo-read-panic"
+        else if stale then "fail memo-stale"
+        else if bad then "fail memo-bad-value"
+        else "ok"
+      s!"{String.join parts}fin={",".intercalate (fin.map showGRes)}:{sf.sig} ## {verdict}"
+    | _, _ => "bad-op"
+  | _, _ => "bad-op"
+
 -- ---------------------------------------------------------------- sig
 
 def parseSOp (o : String) : Option Sig.Op :=
@@ -157,8 +286,11 @@ def step (_ : Unit) (line : String) : Unit × String :=
     match words line with
     | ["case", n] => s!"case {n}"
     | ["await", kind, nAw, polls, sc] => doAwait kind nAw polls sc
+    | ["dnotify", k, sc] => doDnotify k sc
+    | ["dwrite", kind, polls, sc] => doDwrite kind polls sc
     | ["chan", polls, ms, sc] => doChan polls ms sc
     | ["memo", ini, progs, sc] => doMemo ini progs sc
+    | ["graph", spec, ini, gates, progs, sc] => doGraph spec ini gates progs sc
     | ["sig", progs, sc] => doSig progs sc
     | ["stress", "effect", seed, wr, it] =>
       -- free-running threads: the model only states the expected outcome (testing, not correspondence)
